@@ -71,7 +71,7 @@ type Tree struct {
 	Emb
 	Un     *Tree // usually left unmarked
 	Leaves []Leaf
-	St     Stamp  // a struct type with methods (MarshalText, String): still a struct to descend into
+	St     Stamp // a struct type with methods (MarshalText, String): still a struct to descend into
 	PSt    *Stamp
 }
 
@@ -118,8 +118,8 @@ func (e MyI32) String() string { return "ENUM_" + strconv.Itoa(int(e)) }
 
 // IsZero methods (as encoding/json's omitzero looks for) that disagree with the Go zero value:
 // emptiness in the validator's sense is the Go zero value of the field, nothing else.
-func (v MyI8) IsZero() bool  { return v == -1 }
-func (v MyF64) IsZero() bool { return v == 1.5 }
+func (v MyI8) IsZero() bool    { return v == -1 }
+func (v MyF64) IsZero() bool   { return v == 1.5 }
 func (s MyStr) String() string { return "<" + string(s) + ">" }
 func (u MyU8) String() string  { return "u8" }
 
